@@ -11,6 +11,7 @@ import (
 	"github.com/inbucket/inbucket/v3/pkg/extension"
 	"github.com/inbucket/inbucket/v3/pkg/message"
 	"github.com/inbucket/inbucket/v3/pkg/storage"
+	"github.com/inbucket/inbucket/v3/pkg/verifhook"
 )
 
 // Store implements an in-memory message store.
@@ -91,6 +92,7 @@ func (s *Store) AddMessage(message storage.Message) (id string, err error) {
 			}
 		}
 	})
+	verifhook.Yield("mem.add.visible " + m.mailbox + "/" + id)
 	s.enforcerDeliver(m)
 	return id, err
 }
@@ -153,6 +155,7 @@ func (s *Store) PurgeMessages(mailbox string) error {
 	})
 
 	// Process size/quota.
+	verifhook.Yield("mem.purge.cleared " + mailbox)
 	if s.remove != nil {
 		for _, m := range messages {
 			s.enforcerRemove(m)
@@ -188,6 +191,7 @@ func (s *Store) removeMessage(mailbox, id string) *Message {
 // RemoveMessage deletes a single message.
 func (s *Store) RemoveMessage(mailbox, id string) error {
 	m := s.removeMessage(mailbox, id)
+	verifhook.Yield("mem.remove.removed " + mailbox + "/" + id)
 	if m != nil {
 		s.enforcerRemove(m)
 	}
@@ -205,6 +209,7 @@ func (s *Store) VisitMailboxes(f func([]storage.Message) (cont bool)) error {
 	s.Unlock()
 	// Process mailboxes.
 	for _, mailbox := range boxNames {
+		verifhook.Yield("mem.visit.mailbox " + mailbox)
 		ms, _ := s.GetMessages(mailbox)
 		if !f(ms) {
 			break
